@@ -56,6 +56,17 @@ def gen_set(rnd, n, shape, alpha=None, maxlen=12):
     return sorted(S)
 
 
+def pad_total(S, residue, mod=32):
+    """extend the LAST string (it stays last and distinct) until sum(len+1) = residue (mod `mod`): sizes of the concatenated
+    text around word multiples are boundary cases of the FM-index / bitmap constructors"""
+    S = list(S)
+    tot = sum(len(x) + 1 for x in S)
+    k = (residue - tot) % mod
+    if k:
+        S[-1] = S[-1] + bytes([S[-1][-1]]) * k
+    return S
+
+
 SHAPES = ["random", "ladder", "sharedprefix", "single", "repetitive", "dominant", "long"]
 
 
@@ -112,6 +123,12 @@ def gen_queries(rnd, S, limit=40, splice=40):
         q.append(S[0][:1] + bytes([u]))
         q.append(bytes([unused[0]]))
         q.append(bytes([unused[-1]]))
+    # in-band terminator family (HASHRPF stores s1 M s2 M ... with M = largest byte + 1): members glued by M
+    mx = max(used) + 1
+    if mx <= 0xFE and len(S) >= 2:
+        for _ in range(8):
+            a, b2 = rnd.choice(S), rnd.choice(S)
+            q += [a + bytes([mx]) + b2, a + bytes([mx]), bytes([mx]) + a]
     # proof-directed family (case split of the in-bucket scan, LexLemmas.scan_trick_*): the head of
     # one member spliced with the tail of a LATER nearby member, cut at every position beyond the
     # point where the first member and its successor diverge
